@@ -19,6 +19,7 @@
    Consequence for timing of inner I/O errors only: the model reports them when the
    decompressor is created, the code when it first reads; both leave the state Empty. *)
 From MLA Require Import Base Stream.
+From MLA Require Export Limit.
 Open Scope N_scope.
 
 (* Vec::get and iter().take(n).sum() with an N index (no unary blow-up on huge indexes) *)
@@ -366,6 +367,7 @@ Arguments c_pos {S} _.
 
 (* ---------- writer (compress.rs:562-791) ---------- *)
 Section CompWriter.
+  Context {LIM : Limit}.    (* BINCODE_MAX_DESERIALIZE *)
   Variable BLOCK : N.
   Variable comp : bytes -> bytes.
 
@@ -421,7 +423,12 @@ Section CompWriter.
       end
     end.
 
-  (* LayerWriter::finalize (before the recursive inner.finalize()) *)
+  (* LayerWriter::finalize (before the recursive inner.finalize()), compress.rs:692-752.
+     The SizesInfo footer goes through bincode under `.with_limit(BINCODE_MAX_DESERIALIZE)`:
+     the bounded serializer computes the size first and writes NOTHING when it exceeds the
+     limit (SerializationError; the state stays Empty after the mem::replace, compressed_sizes
+     was taken); otherwise the footer is written and `u32::try_from(size)` fails from 2^32 on
+     (SerializationError, footer already in the inner writer). *)
   Definition cw_finalize (w : cwriter) : cwriter * res unit :=
     match cw_st w with
     | WEmpty => (w, Err EState)
@@ -432,7 +439,8 @@ Section CompWriter.
         | _ => (cw_out w, cw_sizes w, 0)
         end in
       let f := footer_of sizes1 last in
-      if 2 ^ 32 <=? len f then (mkCW (out1 ++ f) WEmpty [], Err EIo)    (* SerializationError *)
+      if lim <? len f then (mkCW out1 WEmpty [], Err EIo)                     (* SerializationError: bincode limit *)
+      else if 2 ^ 32 <=? len f then (mkCW (out1 ++ f) WEmpty [], Err EIo)    (* SerializationError: u32::try_from *)
       else (mkCW (out1 ++ f ++ le_bytes 4 (len f)) WReady sizes1, Ok tt)
     end.
 End CompWriter.
